@@ -17,7 +17,16 @@
 
 using namespace rlbox;
 using W = __int128;
-using Sbx = rlbox_vm_sandbox<vm_abi_wasm32, 12>;
+#if defined(ABI_LP16)
+using Abi = vm_abi_lp16;
+#define ABI_FOREIGN
+#elif defined(ABI_LP64U)
+using Abi = vm_abi_lp64u; // pointers as wide as the host's, but offsets from the sandbox base
+#define ABI_FOREIGN
+#else
+using Abi = vm_abi_wasm32;
+#endif
+using Sbx = rlbox_vm_sandbox<Abi, 12>;
 using RS = rlbox_sandbox<Sbx>;
 static tr::Out out;
 static RS* sb;
@@ -194,7 +203,9 @@ static int32_t g_seen_ret = 0;
 static int32_t g_call_cb(int32_t x)
 {
   int32_t r = 0;
+#ifndef ABI_FOREIGN
   Sbx::call_indirect<int32_t, int32_t>(g_entry, &r, x);
+#endif
   g_seen_ret = r;
   return r;
 }
@@ -300,7 +311,8 @@ int main(int argc, char** argv)
     out.put(e2);
 #endif
   }
-  // opaque vs tainted through the boundary
+  // opaque vs tainted through the boundary (the guest side below is written for wasm32)
+#ifndef ABI_FOREIGN
   for (long v : { 0L, 1L, -1L, 2147483647L, -2147483648L, 2147483648L, -2147483649L, 70000L }) {
     for (int variant = 0; variant < 2; variant++) {
       g_cb_value = v;
@@ -350,6 +362,7 @@ int main(int argc, char** argv)
       out.put(e);
     }
   }
+#endif
 #define SC(D, S) cast_pair<0, D, S>(rng, #S, #D);
   SC(int, long) SC(long, int) SC(short, long long) SC(unsigned, int) SC(int, unsigned) SC(long long, unsigned long)
     SC(unsigned char, int) SC(bool, int) SC(double, int) SC(int, double) SC(float, double) SC(long, float)
